@@ -687,7 +687,10 @@ func (e *Engine) verifyFunction(key string, ct *Contract) (res *FnResult) {
 			fc.assume(st, not(eq(pv.Ref, "0")))
 			fc.knownNonNil[pv.Ref] = true
 			et := fv.Type().(*types.Pointer).Elem()
-			env.vars[fv.Name()] = TV{fc.load(st, pv, et), et}
+			if env.cells == nil {
+				env.cells = map[string]cellRef{}
+			}
+			env.cells[fv.Name()] = cellRef{pv, et}
 		}
 	}
 	fc.pre = st.clone()
@@ -708,7 +711,7 @@ func (e *Engine) verifyFunction(key string, ct *Contract) (res *FnResult) {
 	fc.execBody(fn, st, ct, "", func(rs *State, results []Val, ret *ssa.Return) {
 		nret++
 		fc.curSt = rs
-		penv := &SpecEnv{fc: fc, st: rs, old: fc.pre, pkg: fn.Pkg.Pkg, vars: map[string]TV{}, alias: e.aliasFor(fn)}
+		penv := &SpecEnv{fc: fc, st: rs, old: fc.pre, pkg: fn.Pkg.Pkg, vars: map[string]TV{}, alias: e.aliasFor(fn), cells: env.cells}
 		for k, v := range env.vars {
 			penv.vars[k] = v
 		}
